@@ -1,5 +1,5 @@
 import Httoop.Proofs.Path
-/- The segment stack of `URI.abspath`: dot-freeness, shape, fixed points. -/
+/- The segment stack of `URI.abspathCore`: dot-freeness, shape, fixed points. -/
 namespace Httoop.Uri
 open Httoop
 
